@@ -602,17 +602,37 @@ def r6_scan_agrees_with_event_filter(repo=None):
     r = Rule("C16.R6", "files found by scanning the disk are tracked only if the event handler accepts events for them")
     m = pyfront.mod("ringbuffer", repo)
     n = 0
+
+    def windowed_listing(c):
+        if not (isinstance(c, ast.Call) and (pyfront.call_name(c) or "").split(".")[-1] == "ilsdrf"):
+            return False
+        kw = {k.arg: k.value for k in c.keywords}
+        return any(k in kw and not (isinstance(kw[k], ast.Constant) and kw[k].value is None) for k in ("starttime", "endtime"))
+    # methods that hand a windowed listing back unfiltered (`return ilsdrf(...)`): a call of such a method is a listing as well
+    raw_listers = set()
+    for _round in range(3):
+        for q, f0 in m.functions.items():
+            if "." not in q or "<locals>" in q:
+                continue
+            for rt in pyfront.walk_no_nested(f0):
+                if isinstance(rt, ast.Return) and rt.value is not None:
+                    v = rt.value
+                    if isinstance(v, ast.Name):
+                        ds = [a_.value for a_ in pyfront.walk_no_nested(f0) if isinstance(a_, ast.Assign) and any(
+                            isinstance(t, ast.Name) and t.id == v.id for t in a_.targets)]
+                        v = ds[0] if len(ds) == 1 else v
+                    if windowed_listing(v) or (isinstance(v, ast.Call) and isinstance(v.func, ast.Attribute) and isinstance(v.func.value, ast.Name)
+                                                and v.func.value.id == "self" and v.func.attr in raw_listers):
+                        raw_listers.add(q.split(".")[-1])
     for q, f0 in m.functions.items():
         if "." not in q or "<locals>" in q:
             continue
         fvw = m.flat(q)            # private helpers inlined: a listing made in a helper is judged where it is used
         f = fvw.fn()
         for c in pyfront.walk_no_nested(f):
-            if not (isinstance(c, ast.Call) and (pyfront.call_name(c) or "").split(".")[-1] == "ilsdrf"):
-                continue
-            kw = {k.arg: k.value for k in c.keywords}
-            windowed = any(k in kw and not (isinstance(kw[k], ast.Constant) and kw[k].value is None) for k in ("starttime", "endtime"))
-            if not windowed:
+            is_raw_call = isinstance(c, ast.Call) and isinstance(c.func, ast.Attribute) and isinstance(c.func.value, ast.Name) \
+                and c.func.value.id == "self" and c.func.attr in raw_listers
+            if not (windowed_listing(c) or is_raw_call):
                 continue
             # the name the listing is bound to (or the call itself) must be the iterable of a comprehension with the handler's match as filter
             par = fvw.parents.get(c)
